@@ -530,7 +530,10 @@ func c09R3(c *Ctx) {
 		}
 		facts := fs.At(r.Block())
 		errNil := anyFact(facts, func(f Fact) bool {
-			return cmpFact(f, token.EQL, func(v ssa.Value) bool { ex, ok := v.(*ssa.Extract); return ok && ex.Tuple == ssa.Value(parse) && ex.Index == 1 }, isNilConst)
+			return cmpFact(f, token.EQL, func(v ssa.Value) bool {
+				ex, ok := v.(*ssa.Extract)
+				return ok && ex.Tuple == ssa.Value(parse) && ex.Index == 1
+			}, isNilConst)
 		})
 		valid := anyFact(facts, func(f Fact) bool { return f.T && strings.HasSuffix(path(f.V), ".&Valid") })
 		c.check(errNil && valid && isNilConst(rv[1]), "C09.R3", fmt.Sprintf("%s/token-return[%d]", fnName(fn), k), r.Pos(), "a token is returned only when parsing returned no error and token.Valid",
@@ -1028,6 +1031,34 @@ func runC10(c *Ctx) {
 	c10R3(c)
 	c10R4(c)
 	c09R2(c, "C10.R4")
+	// the endpoint that was checked stays the key of every table on the way to the upstream
+	c01R1(c)
+	c15R2(c, "C10.R1")
+	c10R5(c)
+}
+
+// c10R5: the claims a token is built from are private to the verification
+// call (a fresh allocation), so a token's endpoint list cannot be rewritten by
+// a later verification.
+func c10R5(c *Ctx) {
+	p := c.P
+	c.floor("C10.R5", 1)
+	fn := p.Func(authPkg, "JWTVerifier.Verify")
+	if fn == nil {
+		c.fail("C10.R5", "anchor/JWTVerifier.Verify", token.NoPos, "not found")
+		return
+	}
+	allInstrs(fn, func(i ssa.Instruction) {
+		cl, ok := i.(*ssa.Call)
+		if !ok || !strings.HasSuffix(commonName(&cl.Call), "jwt/v5.ParseWithClaims") {
+			return
+		}
+		claims := strip(cl.Call.Args[1])
+		al, isAlloc := claims.(*ssa.Alloc)
+		fresh := isAlloc && al.Parent() == fn
+		c.check(fresh, "C10.R5", fnName(fn)+"/claims-are-private", cl.Pos(), "claims are decoded into an object allocated by this call",
+			"the claims object is not allocated by this call (pooled/shared): the endpoint list of a token still in use can be overwritten by the next verification")
+	})
 }
 
 // tokenOf: v is (c.Get(TokenContextKey) value).(*auth.Token)
@@ -1275,7 +1306,9 @@ func c10R3(c *Ctx) {
 		}
 		facts := fs.At(cl.Block())
 		if _, ok := loadedField(cl.Call.Value, defF); ok {
-			noTenant := anyFact(facts, func(f Fact) bool { return cmpFact(f, token.EQL, func(v ssa.Value) bool { return v == tenant }, isEmptyStr) })
+			noTenant := anyFact(facts, func(f Fact) bool {
+				return cmpFact(f, token.EQL, func(v ssa.Value) bool { return v == tenant }, isEmptyStr)
+			})
 			noneConfigured := anyFact(facts, func(f Fact) bool {
 				return cmpFact(f, token.EQL, func(v ssa.Value) bool { return lenOfField(v, tenF) }, func(v ssa.Value) bool { n, ok := constInt(v); return ok && n == 0 })
 			})
